@@ -140,6 +140,15 @@ class LoopMixin:
                     return self.assign(n.target, itv.items[i], s2, fr, body)
                 return go(0, s)
             guard, advance, dec = setup
+            try:
+                _o, _lc = self.loop_contract(fr, n)
+                if _lc.get("iter_name"):
+                    src = itv
+                    if isinstance(itv, SFunc) and itv.what == "builtin_iter" and itv.payload[0] == "enumerate":
+                        src = itv.payload[1][0]
+                    s.env[_lc["iter_name"]] = src
+            except EngineError:
+                pass
             cur_key = ("g", f"cursor{id(n)}", "int")
             s.heap.set(cur_key, z3.IntVal(0))
             uses_cursor = not (isinstance(itv, SRef) and itv.kind == "iter:str")
